@@ -59,7 +59,7 @@ package options
 //@   ensures #ignored !typeis(o, "*network.Driver") ==> result == util.ErrIgnoredOption
 
 //@ func WithDefaultLogger$1 [C19]
-//@   modifies as(o, "*generic.Driver").Logger, alloc()
+//@   modifies as(o, "*generic.Driver").Logger, alloc(), optlog
 //@   ensures #applies typeis(o, "*generic.Driver") && result == nil ==> as(o, "*generic.Driver").Logger != nil
 //@   ensures #ignored !typeis(o, "*generic.Driver") ==> result == util.ErrIgnoredOption
 
